@@ -94,6 +94,16 @@ func contentTypes(s Summary) []*Term {
 
 // decimalSizeBody: t renders `size` in decimal followed by a newline.
 func decimalSizeBody(s Summary, t, size *Term) bool {
+	// the size is a uint64: rendered through a signed integer it comes out negative from 2^63 on
+	if anySub(t, func(x *Term) bool {
+		if x.Kind != "conv" || len(x.Args) != 1 || x.Typ == nil || normInt(x.Args[0]) != normInt(size) {
+			return false
+		}
+		b, ok := x.Typ.Underlying().(*types.Basic)
+		return ok && b.Info()&types.IsInteger != 0 && b.Info()&types.IsUnsigned == 0
+	}) {
+		return false
+	}
 	// as a template: exactly <decimal of size> "\n", however it is assembled
 	prev := pieceCtx
 	pieceCtx = &s
